@@ -116,14 +116,14 @@ def replay_case(ctx, sc, k):
 
 def cases(ctx, curve):
     if curve == 'bl':
-        return 1 if ctx.quick else 6
-    return 3 if ctx.quick else 50
+        return 1 if ctx.quick else 20
+    return 3 if ctx.quick else 200
 
 
 def run(ctx):
     ctx.rule = ('Leg A: KeyFlow flow "sign" - every (curve, signature form, message form, tamper kind incl. each other curve) scenario, '
                 'stepwise Key.verify (prefix step, scheme step) against the declarative Valid; Leg B: every completed scenario x K seeded '
-                'keys/messages (K = 3 quick / 50 thorough; BLS 1 / 6): pytezos signs, an independent implementation verifies the raw signature over the '
+                'keys/messages (K = 3 quick / 200 thorough; BLS 1 / 20): pytezos signs, an independent implementation verifies the raw signature over the '
                 'model\'s digest, Key.verify (public key only) and CHECK_SIGNATURE must give the model\'s verdict; every evaluated case is non-trivial '
                 '(a real signature is produced and checked); cases whose signing step already disagreed are not counted as non-trivial')
     ctx.assumptions = ['symbolic cryptography in the spec; interpreted in replay by hashlib Blake2b, `cryptography` (OpenSSL) Ed25519 / ECDSA secp256k1 / ECDSA P-256 over the 32-byte prehash, own Base58Check',
@@ -173,7 +173,7 @@ META = {
     'design_ref': 'DESIGN.md section 5 C07, section 3.4, section 6 row 14, section 9',
     'note': ('The cryptographic equalities are not in the TLA+ model: they are checked during replay by interpreting the symbolic constructors with a second implementation '
              '(harness/vf/cryptoref.py); the specification contributes the scenario table and the accept/reject logic. Trusted: cryptoref.py, b58.py, `cryptography`/OpenSSL. '
-             'BLS is verified with py_ecc primitives only (no independent implementation). Bounds: 168 scenarios x 3 (50 thorough) seeded cases, BLS x 1 (6); '
+             'BLS is verified with py_ecc primitives only (no independent implementation). Bounds: 168 scenarios x 3 (200 thorough) seeded cases, BLS x 1 (20); '
              'messages 0..200 bytes; single-bit alterations at seeded positions.'),
     'technique': 'TLA+ spec (symbolic cryptography) + TLC exhaustive model checking; spec-scenario replay into Key.sign / Key.verify / CHECK_SIGNATURE with an independent verifier as interpretation',
 }
